@@ -1,4 +1,5 @@
 import Shentu.Props.C17
+import Shentu.Proofs.VmConserve
 /-
   C18 at the level of the VM model (`Shentu.EVM`, multi-frame): failed inner calls leave no trace,
   and calls cannot create gas.
@@ -21,6 +22,34 @@ import Shentu.Props.C17
                               than it had (C17.exec_gas_monotone; the cap of `withRefund`)
   Note (found while modelling, not an effect of the callee): a CALL to an address without an account creates
   that account in the CALLER's frame before the callee frame is opened; this creation stays when the call fails.
+
+  CREATE / CREATE2 (inside the model): the account to be created exists only in the constructor's frame (`createWorld`);
+  `settleCreate` is the only place where the constructor's frame touches the creator's, `createAfter` applies it verbatim.
+
+  constructor_failure_no_effect   a constructor that ends with an error (revert, out of gas, INVALID, any exception, an endowment
+                              the creator cannot pay): no account, no code, no storage, no balance change, no destroyed
+                              account and no event reaches the creator's frame; 0 is pushed, nothing goes into the creator's
+                              error sink, the constructor's output is the return data
+  created_account_only_in_child   before the constructor has succeeded the creator's own accounts do not contain the new address
+                              (`createWorld` is handed to the child; the creator's frame is untouched until `settleCreate`)
+  static_creator_adopts_nothing_create   a read-only creator never adopts the constructor's frame, and a constructor that
+                              succeeded there fails the creator (error in its sink)
+  creation_adopts_constructor the successful constructor's accounts become the creator's, with the returned bytes as the new
+                              account's code and nothing else changed in that account (initChildCode_account); the events are
+                              handed over
+  refused_child_code_fails_creator   a constructor that succeeded but whose code InitChildCode refuses (the creator's metadata lists
+                              permitted code hashes and this one is not among them; the account was destroyed; the address had
+                              code): the error lands in the CREATOR's sink, and frame_with_error_stops: that frame ends with the
+                              error at its next iteration, so its whole cache — the child's account, the storage its
+                              constructor wrote, the endowment — is dropped by whoever called it
+  enclosing_failure_discards_creation   a creation that succeeded inside a callee frame which then fails is gone with it:
+                              the caller of that frame keeps the accounts it had (instance of child_failure_no_effect)
+  execTop_failure_restores    a transaction whose outermost frame fails leaves every account as it was, whatever was
+                              created, stored or destroyed on the way
+  what survives a failed frame: the gas it used (callee_gas_bounded, constructor_gas_exact) and the CVM's sequence counter
+                              (frame_seq_survives): the next CREATE in the transaction derives a different address
+  constructor_gas_exact       the constructor runs on the creator's gas: afterwards the creator has exactly what the
+                              constructor left (the `min` in `leaveGas` never bites for a frame of the model)
 -/
 namespace Shentu.Props.C18vm
 open Shentu Shentu.EVM
@@ -106,6 +135,191 @@ theorem callee_gas_bounded (d : Nat) (env : Env) (gas : Nat) (w : World) (remove
   | zero => exact Nat.le_refl _
   | succ n => exact runFrame_gas_le (runDepth n) env gas w removed
 
+-- ---------------------------------------------------------------- CREATE / CREATE2
+
+/-- a constructor that fails leaves nothing behind in the creator's frame: accounts (hence code, storage, balances — the
+    endowment included), destroyed-account list and dirty flag are what they were, no event is handed over, 0 is pushed, the
+    creator's error sink receives nothing, and the constructor's output becomes the return data -/
+theorem constructor_failure_no_effect (q : Quirks) (readOnly : Bool) (creator addr : Nat) (w : World) (dirty : Bool)
+    (removed : List Nat) (r : CallRes) (hfail : r.err.isSome = true) :
+    (settleCreate q readOnly creator addr w dirty removed r).world = w ∧
+    (settleCreate q readOnly creator addr w dirty removed r).removed = removed ∧
+    (settleCreate q readOnly creator addr w dirty removed r).dirty = dirty ∧
+    (settleCreate q readOnly creator addr w dirty removed r).logs = [] ∧
+    (settleCreate q readOnly creator addr w dirty removed r).pushed = 0 ∧
+    (settleCreate q readOnly creator addr w dirty removed r).err = none ∧
+    (settleCreate q readOnly creator addr w dirty removed r).retBuf = r.ret := by
+  unfold settleCreate
+  cases he : r.err with
+  | none => simp [he] at hfail
+  | some e => simp
+
+example : (settleCreate Quirks.impl false 1 2 [{ addr := 1, balance := 5 }] false []
+    { err := some .executionReverted, world := [{ addr := 2, balance := 5, storage := [(0, 1)] }, { addr := 1 }] }).world
+    = [{ addr := 1, balance := 5 }] := rfl
+
+/-- conversely: whenever CREATE pushes 0 for an address that is not 0, the creator's accounts, destroyed-account list and
+    events are untouched (failed constructor, or — specification mode — oversized code) -/
+theorem create_pushes_zero_no_effect (q : Quirks) (readOnly : Bool) (creator addr : Nat) (w : World) (dirty : Bool)
+    (removed : List Nat) (r : CallRes) (ha : addr ≠ 0)
+    (h0 : (settleCreate q readOnly creator addr w dirty removed r).pushed = 0) :
+    (settleCreate q readOnly creator addr w dirty removed r).world = w ∧
+    (settleCreate q readOnly creator addr w dirty removed r).removed = removed ∧
+    (settleCreate q readOnly creator addr w dirty removed r).logs = [] := by
+  unfold settleCreate at h0 ⊢
+  cases he : r.err with
+  | some e => exact ⟨rfl, rfl, rfl⟩
+  | none =>
+    simp only [he] at h0 ⊢
+    by_cases hsz : (!q.noCodeSizeLimit && decide (r.ret.size > maxCodeSize)) = true
+    · rw [if_pos hsz]
+      exact ⟨rfl, rfl, rfl⟩
+    · rw [if_neg hsz] at h0
+      cases readOnly <;> exact absurd h0 ha
+
+/-- the new account is handed to the constructor's frame only: the accounts the creator keeps while the constructor runs
+    are its own, and the child's differ from them at most in the new address -/
+theorem created_account_only_in_child (w : World) (addr x : Nat) (hx : x ≠ addr) :
+    (createWorld w addr).get x = w.get x := by
+  unfold createWorld
+  split
+  · rfl
+  · rw [get_put]
+    exact if_neg hx
+
+/-- a read-only creator (CREATE inside a STATICCALL frame) never adopts the constructor's frame -/
+theorem static_creator_adopts_nothing_create (q : Quirks) (creator addr : Nat) (w : World) (dirty : Bool) (removed : List Nat)
+    (r : CallRes) :
+    (settleCreate q true creator addr w dirty removed r).world = w ∧
+    (settleCreate q true creator addr w dirty removed r).removed = removed := by
+  unfold settleCreate
+  split
+  · exact ⟨rfl, rfl⟩
+  · split
+    · exact ⟨rfl, rfl⟩
+    · exact ⟨rfl, rfl⟩
+
+/-- … and a constructor that succeeded in a read-only creator's frame fails the creator: an error goes into its sink -/
+theorem static_creator_create_fails (creator addr : Nat) (w : World) (dirty : Bool) (removed : List Nat)
+    (r : CallRes) (hok : r.err = none) :
+    (settleCreate Quirks.impl true creator addr w dirty removed r).err.isSome = true := by
+  unfold settleCreate
+  have h1 : (!Quirks.impl.noCodeSizeLimit) = false := rfl
+  simp only [hok, h1, Bool.false_and]
+  cases h : (initChildErr Quirks.impl creator addr r.ret r.world) with
+  | none => simp
+  | some e => simp
+
+/-- a successful constructor in a writable creator whose code `InitChildCode` accepts: the constructor's accounts become the
+    creator's with the code stored (`initChildCode`, described by `initChildCode_account`), the events are handed over, the
+    address is pushed, the creator's error sink receives nothing and the return-data buffer is empty -/
+theorem creation_adopts_constructor (creator addr : Nat) (w : World) (dirty : Bool) (removed : List Nat) (r : CallRes)
+    (hok : r.err = none) (hacc : initChildErr Quirks.impl creator addr r.ret r.world = none) :
+    (settleCreate Quirks.impl false creator addr w dirty removed r).world = initChildCode creator addr r.ret r.world ∧
+    (settleCreate Quirks.impl false creator addr w dirty removed r).removed = r.removed ∧
+    (settleCreate Quirks.impl false creator addr w dirty removed r).logs = r.logs ∧
+    (settleCreate Quirks.impl false creator addr w dirty removed r).pushed = addr ∧
+    (settleCreate Quirks.impl false creator addr w dirty removed r).err = none ∧
+    (settleCreate Quirks.impl false creator addr w dirty removed r).retBuf = .empty := by
+  have h1 : (!Quirks.impl.noCodeSizeLimit) = false := rfl
+  unfold settleCreate
+  simp [hok, h1, hacc]
+
+/-- what `initChildCode` changes: the new account gets the code and its forebear — address, balance and storage are what the
+    constructor left — and no other account is touched -/
+theorem initChildCode_account (creator addr : Nat) (code : ByteArray) (w : World) (acc : Account) (hacc : w.get addr = some acc) :
+    (initChildCode creator addr code w).get addr = some { acc with code := code, forebear := forebearOf creator w } ∧
+    ∀ x, x ≠ addr → (initChildCode creator addr code w).get x = w.get x := by
+  have ha : acc.addr = addr := get_addr hacc
+  unfold initChildCode
+  simp only [hacc]
+  constructor
+  · rw [get_put]
+    simp [ha]
+  · intro x hx
+    rw [get_put]
+    have : ¬ x = ({ acc with code := code, forebear := forebearOf creator w } : Account).addr := by
+      show ¬ x = acc.addr
+      rw [ha]; exact hx
+    exact if_neg this
+
+example : (settleCreate Quirks.impl false 1 2 [{ addr := 1, balance := 5 }] false []
+    { ret := ⟨#[0]⟩, world := [{ addr := 2, balance := 3 }, { addr := 1, balance := 2 }], dirty := true }).pushed = 2 := by decide
+
+/-- a constructor whose code `InitChildCode` refuses — the creator's (or its forebear's) metadata lists permitted code hashes and
+    the returned code is not among them, the account was destroyed by its constructor, … — puts the error into the CREATOR's
+    error sink although the constructor itself succeeded -/
+theorem refused_child_code_fails_creator (readOnly : Bool) (creator addr : Nat) (w : World) (dirty : Bool) (removed : List Nat)
+    (r : CallRes) (e : Err) (hok : r.err = none) (hrej : initChildErr Quirks.impl creator addr r.ret r.world = some e) :
+    (settleCreate Quirks.impl readOnly creator addr w dirty removed r).err = some e := by
+  have h1 : (!Quirks.impl.noCodeSizeLimit) = false := rfl
+  unfold settleCreate
+  cases readOnly <;> simp [hok, h1, hrej]
+
+/-- non-vacuity of the hypothesis (an instance that needs no hash): the constructor destroyed the account it was creating -/
+example : initChildErr Quirks.impl 1 2 ⟨#[0]⟩ [{ addr := 1, balance := 2 }] = some .nonExistentAccount := by decide
+
+/-- the instance the metadata check is about: the new account exists without code, the creator has no forebear and lists
+    permitted code hashes, and neither the hash of the returned code nor its "deploy" hash is on the list.
+    (Keccak-256 is not evaluable by the kernel, so the non-vacuity of `hperm` is an evaluated `#guard` below rather than an
+    `example`; on the real interpreter the hypotheses are met by the `notListed` programs of the `create` profile.) -/
+theorem whitelist_refuses (creator addr : Nat) (code : ByteArray) (w : World) (acc c : Account)
+    (hacc : w.get addr = some acc) (hcode : acc.code.size = 0) (hc : w.get creator = some c) (hf : c.forebear = none)
+    (hperm : codePermitted c.allowed code addr = false) :
+    initChildErr Quirks.impl creator addr code w = some .invalidContractCode := by
+  have hq : Quirks.impl.childCodeWhitelist = true := rfl
+  unfold initChildErr ancestorOf
+  simp [hacc, hcode, hc, hf, hperm, hq]
+
+#guard codePermitted [7] ⟨#[0]⟩ 2 == false
+#guard initChildErr Quirks.impl 1 2 ⟨#[0]⟩ [{ addr := 2, balance := 3 }, { addr := 1, balance := 2, allowed := [7] }] == some .invalidContractCode
+
+/-- … and a frame with an error in its sink ends at once, with that error and no return data, whatever instruction is next: its
+    result then falls under `child_failure_no_effect` (callee), `constructor_failure_no_effect` (constructor) or
+    `execTop_failure_restores` (transaction), so nothing of the refused child — account, storage written by its constructor,
+    endowment — persists -/
+theorem frame_with_error_stops (child : ChildFn) (env : Env) (s : Frame) (e : Err) (he : s.err = some e) :
+    (step child env s).val = (some (.done .empty (some e)), s) := by
+  unfold step
+  simp [he]
+
+/-- a creation that succeeded inside a callee frame is gone when that frame fails: whatever accounts the failed frame held
+    (`r.world`, the created contract among them), its caller continues with the accounts it had -/
+theorem enclosing_failure_discards_creation (readOnly : Bool) (w : World) (dirty : Bool) (removed : List Nat) (r : CallRes)
+    (created : Nat) (_hc : (r.world.get created).isSome = true) (hfail : r.err.isSome = true) :
+    (settle readOnly w dirty removed r).world = w ∧ (settle readOnly w dirty removed r).res.logs = [] := by
+  have h := child_failure_no_effect readOnly w dirty removed r hfail
+  exact ⟨h.1, h.2.2.2.1⟩
+
+/-- a transaction whose outermost frame does not finish without error leaves every account as it was -/
+theorem execTop_failure_restores (env : Env) (gas : Nat) (pre : World) (depth : Nat)
+    (hfail : (execTop env gas pre depth).err.isSome = true ∨ (execTop env gas pre depth).status ≠ 0) :
+    (execTop env gas pre depth).world = pre := by
+  unfold execTop at hfail ⊢
+  dsimp only at hfail ⊢
+  split
+  · rename_i h
+    simp only [Bool.and_eq_true, beq_iff_eq, Option.isNone_iff_eq_none] at h
+    rw [if_pos (by simp [h.1, h.2])] at hfail
+    rcases hfail with hf | hf
+    · simp [h.2] at hf
+    · exact absurd h.1 hf
+  · rfl
+
+/-- the CVM's sequence counter is handed back by a frame whatever its outcome (it is not part of the cache that is rolled back) -/
+theorem frame_seq_survives (terr : Option Err) (o : Outcome) (s : Frame) : (packRes terr o s).seq = s.seq := by
+  cases o <;> rfl
+
+/-- the constructor runs on the creator's gas: a constructor frame that hands back no more than it was given — every frame of
+    the model does, `callee_gas_bounded` — leaves the creator with exactly its remaining gas -/
+theorem constructor_gas_exact (left : Nat) (s : Frame) (h : left ≤ s.gas) : (leaveGas left s).val.2.gas = left := by
+  show min left s.gas = left
+  exact Nat.min_eq_left h
+
+/-- CREATE / CREATE2 never leave the frame with more gas than it had, whatever the constructor does -/
+theorem create_gas_never_increases (child : ChildFn) (env : Env) (op v : Nat) (s : Frame) :
+    (createRest child env op v s).val.2.gas ≤ s.gas := (createRest child env op v s).property.1
+
 /-- gas never increases across an instruction, calls included -/
 theorem call_gas_never_increases (child : ChildFn) (env : Env) (op : Nat) (s : Frame) :
     (exec child env op s).val.2.gas ≤ s.gas := C17.exec_gas_monotone child env op s
@@ -121,6 +335,21 @@ end Shentu.Props.C18vm
 #print axioms Shentu.Props.C18vm.static_caller_adopts_nothing
 #print axioms Shentu.Props.C18vm.static_caller_write_fails
 #print axioms Shentu.Props.C18vm.success_adopts_callee
+#print axioms Shentu.Props.C18vm.constructor_failure_no_effect
+#print axioms Shentu.Props.C18vm.create_pushes_zero_no_effect
+#print axioms Shentu.Props.C18vm.created_account_only_in_child
+#print axioms Shentu.Props.C18vm.static_creator_adopts_nothing_create
+#print axioms Shentu.Props.C18vm.static_creator_create_fails
+#print axioms Shentu.Props.C18vm.creation_adopts_constructor
+#print axioms Shentu.Props.C18vm.initChildCode_account
+#print axioms Shentu.Props.C18vm.refused_child_code_fails_creator
+#print axioms Shentu.Props.C18vm.whitelist_refuses
+#print axioms Shentu.Props.C18vm.frame_with_error_stops
+#print axioms Shentu.Props.C18vm.enclosing_failure_discards_creation
+#print axioms Shentu.Props.C18vm.execTop_failure_restores
+#print axioms Shentu.Props.C18vm.frame_seq_survives
+#print axioms Shentu.Props.C18vm.constructor_gas_exact
+#print axioms Shentu.Props.C18vm.create_gas_never_increases
 #print axioms Shentu.Props.C18vm.callee_gas_bounded
 #print axioms Shentu.Props.C18vm.call_gas_never_increases
 #print axioms Shentu.Props.C18vm.refund_capped
